@@ -10,6 +10,11 @@
 //! future is polled by the simulator only at `drain` events (searches issued while index
 //! events are still queued are counted as lagging reads and not asserted).
 //!
+//! Two embedding properties: in 1/3 of the runs (knob `props2`) a second property `emb2` carries an
+//! independent vector and (V, emb2) -- sometimes also (W, emb2) -- gets its own index (own metric,
+//! own declaration point), so a label has two vector indexes; every search names the property it
+//! searches and is judged against the model's vectors at that property.
+//!
 //! Size classes: most runs keep every index small enough to be searched exactly (<= 128
 //! vectors); in 1/8 of the runs (knob `big`) a `bulk` event creates 140-200 (thorough: up to
 //! 400) vector-bearing nodes at once, so the (label, emb) index is answered from the HNSW
@@ -41,6 +46,9 @@ use std::sync::Arc;
 pub struct C29;
 
 const LABELS: [&str; 2] = ["V", "W"];
+/// Embedding properties: every run uses `emb`; runs with knob `props2` also declare indexes on
+/// (label, `emb2`) and keep a second, independent vector per node there.
+const PROPS: [&str; 2] = ["emb", "emb2"];
 const EPS: f64 = 1e-5;
 /// `VectorIndex` answers an index of up to this many vectors by an exact scan, a larger one from the HNSW graph
 const EXACT_MAX: usize = 128;
@@ -48,15 +56,16 @@ const EXACT_MAX: usize = 128;
 #[derive(Clone, Debug)]
 struct MNode {
     labels: BTreeSet<&'static str>,
-    vec: Option<Vec<i64>>,
+    /// current vector at PROPS[0] / PROPS[1]
+    vecs: [Option<Vec<i64>>; 2],
     code: i64,
 }
 
 #[derive(Default)]
 struct Model {
     nodes: BTreeMap<u64, MNode>,
-    /// label -> declared metric (0 cosine, 1 l2)
-    idx: BTreeMap<&'static str, u64>,
+    /// (label, property index into PROPS) -> declared metric (0 cosine, 1 l2)
+    idx: BTreeMap<(&'static str, usize), u64>,
     next_code: i64,
     ever_deleted: BTreeSet<u64>,
 }
@@ -118,17 +127,18 @@ fn gen_vec(r: &mut Rng, dim: usize) -> Vec<i64> {
 /// Verdict of one search against the model.  Returns (signature class, detail).
 /// `approx` = the index is too large to be searched exactly: the k-nearest clause is not
 /// asserted; instead the reported score must be the declared distance to the CURRENT vector.
-fn judge(m: &Model, label: &str, metric: u64, q: &[f64], k: usize, res: &[(u64, f64)], approx: bool) -> Option<(String, String)> {
+fn judge(m: &Model, label: &str, pi: usize, metric: u64, q: &[f64], k: usize, res: &[(u64, f64)], approx: bool) -> Option<(String, String)> {
+    let prop = PROPS[pi];
     let eligible: BTreeMap<u64, Vec<f64>> = m
         .nodes
         .iter()
-        .filter(|(_, n)| n.labels.contains(label) && n.vec.is_some())
-        .map(|(i, n)| (*i, n.vec.as_ref().unwrap().iter().map(|x| *x as f64).collect()))
+        .filter(|(_, n)| n.labels.contains(label) && n.vecs[pi].is_some())
+        .map(|(i, n)| (*i, n.vecs[pi].as_ref().unwrap().iter().map(|x| *x as f64).collect()))
         .collect();
     let show = |res: &[(u64, f64)]| res.iter().map(|(i, s)| format!("{i}@{s:.4}")).collect::<Vec<_>>().join(" ");
     let ctx = || {
         format!(
-            "search label {label} metric {} q={q:?} k={k}: returned [{}]; live candidates {{{}}}",
+            "search label {label} property {prop} metric {} q={q:?} k={k}: returned [{}]; live candidates {{{}}}",
             if metric == 0 { "cosine" } else { "l2" },
             show(res),
             eligible.iter().map(|(i, v)| format!("{i}:{v:?}@{:.4}", dist(metric, q, v))).collect::<Vec<_>>().join(", ")
@@ -142,7 +152,7 @@ fn judge(m: &Model, label: &str, metric: u64, q: &[f64], k: usize, res: &[(u64, 
                 return Some((format!("live_only/{class}"), format!("node {id} does not exist. {}", ctx())));
             }
             Some(n) if !n.labels.contains(label) => return Some(("live_only/label_removed".into(), format!("node {id} does not carry :{label}. {}", ctx()))),
-            Some(n) if n.vec.is_none() => return Some(("live_only/vector_removed".into(), format!("node {id} has no vector at emb. {}", ctx()))),
+            Some(n) if n.vecs[pi].is_none() => return Some(("live_only/vector_removed".into(), format!("node {id} has no vector at {prop}. {}", ctx()))),
             _ => {}
         }
     }
@@ -206,6 +216,11 @@ fn judge(m: &Model, label: &str, metric: u64, q: &[f64], k: usize, res: &[(u64, 
     None
 }
 
+/// Does node `n` currently sit in both vector indexes of label `l` (a vector under each property, each indexed)?
+fn in_two_indexes(m: &Model, n: u64, l: &'static str) -> bool {
+    m.idx.contains_key(&(l, 0)) && m.idx.contains_key(&(l, 1)) && m.nodes.get(&n).is_some_and(|x| x.vecs[0].is_some() && x.vecs[1].is_some())
+}
+
 impl Scenario for C29 {
     fn id(&self) -> &'static str {
         "C29"
@@ -217,7 +232,7 @@ impl Scenario for C29 {
         }
     }
     fn rule(&self) -> &'static str {
-        "history = <=50 (thorough <=90) events over <=~40 nodes with 0-2 of the labels {V,W} and a 2- or 3-dimensional integer-grid vector at `emb`: create (API / Cypher, float or integer list literal), vector update, overwrite with a string, property removal, label add/remove, delete (ids get reused), CREATE VECTOR INDEX per label with cosine or l2 (DDL, or API + rebuild_vector_index) at a PRNG-chosen point (may be re-declared), rebuild_vector_index, and searches with half-integer query vectors and k in 1..8 through VectorIndexManager::search, GraphStore::vector_search and CALL db.index.vector.queryNodes. Knobs: sync store or async-indexing store (indexer future polled only at drain events), dimension, allowed metrics, mode (full | insert_only = only creations and searches, so the ranking / k-nearest clauses keep running next to known liveness findings) and size class (1 run in 8: a bulk event creates 140-200, thorough up to 400, vector-bearing nodes before or after the index is declared, so the index is answered from the HNSW graph; updates / removals then address any node and k goes up to 1000 = every live point). After every search with nothing queued for the indexer the result is compared with brute force under the declared metric; while model or index hold more than 128 vectors for the label the k-nearest clause is replaced by: reported score = declared distance to the node's current vector. Non-trivial = an index exists, >=1 asserted search returned >=2 nodes, and (mode full) >=1 update/delete/label change happened after the index was declared. Distinct = hash of (knobs, event kinds, resolved ranks)."
+        "history = <=50 (thorough <=90) events over <=~40 nodes with 0-2 of the labels {V,W} and a 2- or 3-dimensional integer-grid vector at `emb`: create (API / Cypher, float or integer list literal), vector update, overwrite with a string, property removal, label add/remove, delete (ids get reused), CREATE VECTOR INDEX per label with cosine or l2 (DDL, or API + rebuild_vector_index) at a PRNG-chosen point (may be re-declared), rebuild_vector_index, and searches with half-integer query vectors and k in 1..8 through VectorIndexManager::search, GraphStore::vector_search and CALL db.index.vector.queryNodes. Knobs: sync store or async-indexing store (indexer future polled only at drain events), dimension, allowed metrics, mode (full | insert_only = only creations and searches, so the ranking / k-nearest clauses keep running next to known liveness findings) second embedding property (1 run in 3: indexes on (V, emb2) and sometimes (W, emb2) are declared as well, so one label has two vector indexes over different properties; nodes carry an independent vector under each; vector updates / overwrites / removals and searches address either property, deletes and label removals must clear the node from every index of the label) and size class (1 run in 8: a bulk event creates 140-200, thorough up to 400, vector-bearing nodes before or after the index is declared, so the index is answered from the HNSW graph; updates / removals then address any node and k goes up to 1000 = every live point). After every search with nothing queued for the indexer the result is compared with brute force under the declared metric; while model or index hold more than 128 vectors for the label the k-nearest clause is replaced by: reported score = declared distance to the node's current vector. Non-trivial = an index exists, >=1 asserted search returned >=2 nodes, and (mode full) >=1 update/delete/label change happened after the index was declared. Distinct = hash of (knobs, event kinds, resolved ranks)."
     }
     fn real_components(&self) -> Vec<&'static str> {
         vec![
@@ -261,6 +276,9 @@ impl Scenario for C29 {
             "hnsw_search_after_vector_update",
             "hnsw_returns_updated_node",
             "hnsw_search_after_removal",
+            "two_indexes_on_one_label",
+            "search_emb_after_node_left_two_indexes",
+            "search_emb2_after_node_left_two_indexes",
         ]
     }
     fn generate(&self, s: &mut Streams, _run_index: u64, tier: Tier) -> Case {
@@ -297,6 +315,14 @@ impl Scenario for C29 {
         let bulk_labels = if k.chance(2, 3) { 1 } else { 3 };
         let n = if big { n.max(16) } else { n };
         case.knobs.insert("big".into(), json!(big));
+        // Second embedding property (drawn after everything else: runs without it stay the histories
+        // they always were): one run in three also declares an index on (V, emb2) -- and sometimes on
+        // (W, emb2) -- so a label has two vector indexes over different properties; nodes then carry
+        // an independent vector under each, and updates / removals / searches address either.
+        let props2 = k.chance(1, 3);
+        let idx3_at = if props2 { k.usize_below(n.min(12) + 1) } else { usize::MAX };
+        let idx4_at = if props2 && k.chance(1, 3) { k.usize_below(n + 1) } else { usize::MAX };
+        case.knobs.insert("props2".into(), json!(props2));
         let nmax: u64 = if big { 4096 } else { 64 };
         let search = |r: &mut Rng| {
             let q: Vec<i64> = loop {
@@ -313,7 +339,11 @@ impl Scenario for C29 {
             } else {
                 7
             };
-            json!({"op":"search","label":r.below(5) / 4,"q":q,"k":1 + r.below(kmax),"via":r.below(3),"drain":r.chance(2,3)})
+            let mut ev = json!({"op":"search","label":r.below(5) / 4,"q":q,"k":1 + r.below(kmax),"via":r.below(3),"drain":r.chance(2,3)});
+            if props2 {
+                ev["prop"] = json!(r.below(2));
+            }
+            ev
         };
         for i in 0..n {
             if big && i == bulk_at {
@@ -325,6 +355,12 @@ impl Scenario for C29 {
             }
             if i == idx2_at {
                 case.events.push(json!({"op":"create_index","label":1,"metric":metric(r),"via":r.below(2)}));
+            }
+            if i == idx3_at {
+                case.events.push(json!({"op":"create_index","label":0,"prop":1,"metric":metric(r),"via":r.below(2)}));
+            }
+            if i == idx4_at {
+                case.events.push(json!({"op":"create_index","label":1,"prop":1,"metric":metric(r),"via":r.below(2)}));
             }
             if i == redeclare_at {
                 case.events.push(json!({"op":"create_index","label":r.below(2),"metric":metric(r),"via":r.below(2)}));
@@ -338,7 +374,15 @@ impl Scenario for C29 {
                 3 => 2,
                 _ => 1,
             };
-            let create = |r: &mut Rng| json!({"op":"create","labels":labels,"vec":if mode == 1 || r.chance(9,10) { json!(gen_vec(r, dim)) } else { Value::Null },"via":r.below(2),"floats":r.chance(1,2)});
+            let create = |r: &mut Rng| {
+                let mut ev = json!({"op":"create","labels":labels,"vec":if mode == 1 || r.chance(9,10) { json!(gen_vec(r, dim)) } else { Value::Null },"via":r.below(2),"floats":r.chance(1,2)});
+                if props2 && r.chance(4, 5) {
+                    ev["vec2"] = json!(gen_vec(r, dim));
+                }
+                ev
+            };
+            // which embedding property a vector update / overwrite / removal addresses
+            let prop = |r: &mut Rng| if props2 { r.below(2) } else { 0 };
             let ev = if mode == 1 {
                 match r.weighted(&[10, 9, 1]) {
                     0 => create(r),
@@ -350,9 +394,9 @@ impl Scenario for C29 {
                 match r.weighted(&weights) {
                     0 => create(r),
                     1 => search(r),
-                    2 => json!({"op":"set_vec","n":r.below(nmax),"vec":gen_vec(r, dim),"via":r.below(2),"floats":r.chance(1,2)}),
-                    3 => json!({"op":"set_nonvec","n":r.below(nmax),"via":r.below(2)}),
-                    4 => json!({"op":"rm_vec","n":r.below(nmax),"via":r.below(2)}),
+                    2 => json!({"op":"set_vec","n":r.below(nmax),"vec":gen_vec(r, dim),"via":r.below(2),"floats":r.chance(1,2),"prop":prop(r)}),
+                    3 => json!({"op":"set_nonvec","n":r.below(nmax),"via":r.below(2),"prop":prop(r)}),
+                    4 => json!({"op":"rm_vec","n":r.below(nmax),"via":r.below(2),"prop":prop(r)}),
                     5 => json!({"op":"add_label","n":r.below(nmax),"label":r.below(2),"via":r.below(2)}),
                     6 => json!({"op":"rm_label","n":r.below(nmax),"label":r.below(2),"via":r.below(2)}),
                     7 => json!({"op":"delete","n":r.below(nmax),"via":r.below(2)}),
@@ -429,7 +473,10 @@ impl Scenario for C29 {
         // (only to report how often an HNSW-path search comes after such a change)
         let mut updated: BTreeSet<u64> = BTreeSet::new();
         let mut removals_while_big = false;
-        let eligible_count = |m: &Model, l: &str| m.nodes.values().filter(|n| n.labels.contains(l) && n.vec.is_some()).count();
+        let eligible_count = |m: &Model, l: &str, pi: usize| m.nodes.values().filter(|n| n.labels.contains(l) && n.vecs[pi].is_some()).count();
+        // nodes that sat in two indexes of one label (a vector under both properties, both indexed) when
+        // they were deleted / lost that label: (label, node) -> asserted searches per property are counted
+        let mut left_two_indexes: BTreeSet<&'static str> = BTreeSet::new();
         macro_rules! cy {
             ($q:expr) => {{
                 let q: String = $q;
@@ -454,12 +501,15 @@ impl Scenario for C29 {
             let live: Vec<u64> = m.nodes.keys().cloned().collect();
             let mut resolved = String::new();
             let had_index = !m.idx.is_empty();
-            let big_before = LABELS.iter().any(|l| m.idx.contains_key(*l) && eligible_count(&m, l) > EXACT_MAX);
+            let big_before = m.idx.keys().any(|(l, pi)| eligible_count(&m, l, *pi) > EXACT_MAX);
+            let pi = (u(ev, "prop") % 2) as usize;
+            let prop = PROPS[pi];
             match kind.as_str() {
                 "create" => {
                     let bits = u(ev, "labels");
                     let labels: Vec<&'static str> = LABELS.iter().enumerate().filter(|(i, _)| bits & (1 << i) != 0).map(|(_, l)| *l).collect();
                     let vec: Option<Vec<i64>> = ev["vec"].as_array().map(|a| a.iter().map(|x| x.as_i64().unwrap_or(1)).collect());
+                    let vec2: Option<Vec<i64>> = ev["vec2"].as_array().map(|a| a.iter().map(|x| x.as_i64().unwrap_or(1)).collect());
                     let code = m.next_code;
                     m.next_code += 1;
                     let id = if via == 0 {
@@ -468,10 +518,17 @@ impl Scenario for C29 {
                         if let Some(v) = &vec {
                             pm.insert("emb".to_string(), PropertyValue::Vector(v.iter().map(|x| *x as f32).collect()));
                         }
+                        if let Some(v) = &vec2 {
+                            pm.insert("emb2".to_string(), PropertyValue::Vector(v.iter().map(|x| *x as f32).collect()));
+                        }
                         g.create_node_with_properties("default", labels.iter().map(|l| Label::new(*l)).collect(), pm).as_u64()
                     } else {
                         let lab: String = labels.iter().map(|l| format!(":{l}")).collect();
-                        let embp = vec.as_ref().map(|v| format!(", emb: {}", vec_lit(v, ev["floats"].as_bool().unwrap_or(true)))).unwrap_or_default();
+                        let floats = ev["floats"].as_bool().unwrap_or(true);
+                        let mut embp = vec.as_ref().map(|v| format!(", emb: {}", vec_lit(v, floats))).unwrap_or_default();
+                        if let Some(v) = &vec2 {
+                            embp.push_str(&format!(", emb2: {}", vec_lit(v, floats)));
+                        }
                         if !cy!(format!("CREATE (n{lab} {{id: {code}{embp}}})")) {
                             break 'run;
                         }
@@ -485,9 +542,10 @@ impl Scenario for C29 {
                     if m.ever_deleted.contains(&id) {
                         o.probe("id_reused");
                     }
-                    m.nodes.insert(id, MNode { labels: labels.iter().cloned().collect(), vec, code });
+                    let both = vec.is_some() && vec2.is_some();
+                    m.nodes.insert(id, MNode { labels: labels.iter().cloned().collect(), vecs: [vec, vec2], code });
                     pending += 1;
-                    resolved = format!("{bits}:{via}");
+                    resolved = format!("{bits}:{via}{}", if both { ":2" } else { "" });
                 }
                 "bulk" => {
                     // many vector-bearing nodes at once (API path: the cheap one)
@@ -513,7 +571,7 @@ impl Scenario for C29 {
                         if m.ever_deleted.contains(&id) {
                             o.probe("id_reused");
                         }
-                        m.nodes.insert(id, MNode { labels: labels.iter().cloned().collect(), vec: Some(vec), code });
+                        m.nodes.insert(id, MNode { labels: labels.iter().cloned().collect(), vecs: [Some(vec), None], code });
                         pending += 1;
                     }
                     o.probe("bulk_created");
@@ -527,38 +585,38 @@ impl Scenario for C29 {
                         "set_vec" => {
                             let v: Vec<i64> = ev["vec"].as_array().map(|a| a.iter().map(|x| x.as_i64().unwrap_or(1)).collect()).unwrap_or_else(|| vec![1; dim]);
                             if via == 0 {
-                                if g.set_node_property("default", id, "emb", PropertyValue::Vector(v.iter().map(|x| *x as f32).collect())).is_err() {
+                                if g.set_node_property("default", id, prop, PropertyValue::Vector(v.iter().map(|x| *x as f32).collect())).is_err() {
                                     o.probe("harness_api_failed");
                                     break 'run;
                                 }
-                            } else if !cy!(format!("MATCH (n {{id: {code}}}) SET n.emb = {}", vec_lit(&v, ev["floats"].as_bool().unwrap_or(true)))) {
+                            } else if !cy!(format!("MATCH (n {{id: {code}}}) SET n.{prop} = {}", vec_lit(&v, ev["floats"].as_bool().unwrap_or(true)))) {
                                 break 'run;
                             }
-                            if had_index && m.nodes[&n].vec.is_some() {
+                            if had_index && m.nodes[&n].vecs[pi].is_some() {
                                 updated.insert(n);
                             }
-                            m.nodes.get_mut(&n).unwrap().vec = Some(v);
+                            m.nodes.get_mut(&n).unwrap().vecs[pi] = Some(v);
                             pending += 1;
                         }
                         "set_nonvec" => {
                             if via == 0 {
-                                if g.set_node_property("default", id, "emb", PropertyValue::String("none".into())).is_err() {
+                                if g.set_node_property("default", id, prop, PropertyValue::String("none".into())).is_err() {
                                     o.probe("harness_api_failed");
                                     break 'run;
                                 }
-                            } else if !cy!(format!("MATCH (n {{id: {code}}}) SET n.emb = 'none'")) {
+                            } else if !cy!(format!("MATCH (n {{id: {code}}}) SET n.{prop} = 'none'")) {
                                 break 'run;
                             }
-                            m.nodes.get_mut(&n).unwrap().vec = None;
+                            m.nodes.get_mut(&n).unwrap().vecs[pi] = None;
                             pending += 1;
                         }
                         _ => {
                             if via == 0 {
-                                g.remove_node_property(id, "emb");
-                            } else if !cy!(format!("MATCH (n {{id: {code}}}) REMOVE n.emb")) {
+                                g.remove_node_property(id, prop);
+                            } else if !cy!(format!("MATCH (n {{id: {code}}}) REMOVE n.{prop}")) {
                                 break 'run;
                             }
-                            m.nodes.get_mut(&n).unwrap().vec = None;
+                            m.nodes.get_mut(&n).unwrap().vecs[pi] = None;
                             // (no index event on the pinned tree; counted so that a store that does
                             // queue one is not asserted before the indexer saw it)
                             pending += 1;
@@ -568,7 +626,7 @@ impl Scenario for C29 {
                     if kind != "set_vec" && big_before {
                         removals_while_big = true;
                     }
-                    resolved = format!("{}:{via}", live.iter().position(|x| *x == n).unwrap());
+                    resolved = format!("{}:{via}:{pi}", live.iter().position(|x| *x == n).unwrap());
                 }
                 "add_label" | "rm_label" => {
                     let Some(n) = pick(&live, u(ev, "n")) else { continue };
@@ -598,6 +656,9 @@ impl Scenario for C29 {
                         } else if !cy!(format!("MATCH (n {{id: {code}}}) REMOVE n:{l}")) {
                             break 'run;
                         }
+                        if m.nodes[&n].labels.contains(l) && in_two_indexes(&m, n, l) {
+                            left_two_indexes.insert(l);
+                        }
                         m.nodes.get_mut(&n).unwrap().labels.remove(l);
                         pending += 1;
                         if big_before {
@@ -618,6 +679,11 @@ impl Scenario for C29 {
                     } else if !cy!(format!("MATCH (n {{id: {code}}}) DETACH DELETE n")) {
                         break 'run;
                     }
+                    for l in LABELS {
+                        if m.nodes[&n].labels.contains(l) && in_two_indexes(&m, n, l) {
+                            left_two_indexes.insert(l);
+                        }
+                    }
                     m.nodes.remove(&n);
                     m.ever_deleted.insert(n);
                     updated.remove(&n);
@@ -633,20 +699,24 @@ impl Scenario for C29 {
                     let metric = u(ev, "metric") % 2;
                     let name = ["cosine", "l2"][metric as usize];
                     if via == 0 {
-                        if !cy!(format!("CREATE VECTOR INDEX vi_{l} FOR (n:{l}) ON (n.emb) OPTIONS {{dimensions: {dim}, similarity: '{name}'}}")) {
+                        let iname = if pi == 0 { format!("vi_{l}") } else { format!("vi_{l}_{prop}") };
+                        if !cy!(format!("CREATE VECTOR INDEX {iname} FOR (n:{l}) ON (n.{prop}) OPTIONS {{dimensions: {dim}, similarity: '{name}'}}")) {
                             break 'run;
                         }
                     } else {
                         let dm = if metric == 0 { DistanceMetric::Cosine } else { DistanceMetric::L2 };
-                        if g.create_vector_index(l, "emb", dim, dm).is_err() {
+                        if g.create_vector_index(l, prop, dim, dm).is_err() {
                             o.probe("harness_api_failed");
                             break 'run;
                         }
                         g.rebuild_vector_index();
                     }
-                    m.idx.insert(l, metric);
+                    m.idx.insert((l, pi), metric);
                     o.probe(&format!("index_{name}"));
-                    resolved = format!("{l}:{name}:{via}");
+                    if m.idx.contains_key(&(l, 1 - pi)) {
+                        o.probe("two_indexes_on_one_label");
+                    }
+                    resolved = format!("{l}:{prop}:{name}:{via}");
                 }
                 "rebuild" => {
                     if m.idx.is_empty() {
@@ -667,7 +737,7 @@ impl Scenario for C29 {
                 }
                 "search" => {
                     let l = LABELS[(u(ev, "label") % 2) as usize];
-                    let Some(metric) = m.idx.get(l).cloned() else { continue };
+                    let Some(metric) = m.idx.get(&(l, pi)).cloned() else { continue };
                     if asyn && pending > 0 && ev["drain"].as_bool().unwrap_or(false) {
                         tasks.run_until_stalled(|_| 0, 64);
                         o.probe("async_drained");
@@ -682,16 +752,16 @@ impl Scenario for C29 {
                     let res: Result<Result<Vec<(u64, f64)>, String>, String> = match via {
                         0 => {
                             o.probe("search_manager");
-                            catch_unwind(AssertUnwindSafe(|| g.vector_index.search(l, "emb", &qf, k).map(|v| v.into_iter().map(|(i, s)| (i.as_u64(), s as f64)).collect()).map_err(|e| e.to_string()))).map_err(panic_text)
+                            catch_unwind(AssertUnwindSafe(|| g.vector_index.search(l, prop, &qf, k).map(|v| v.into_iter().map(|(i, s)| (i.as_u64(), s as f64)).collect()).map_err(|e| e.to_string()))).map_err(panic_text)
                         }
                         1 => {
                             o.probe("search_store");
-                            catch_unwind(AssertUnwindSafe(|| g.vector_search(l, "emb", &qf, k).map(|v| v.into_iter().map(|(i, s)| (i.as_u64(), s as f64)).collect()).map_err(|e| e.to_string()))).map_err(panic_text)
+                            catch_unwind(AssertUnwindSafe(|| g.vector_search(l, prop, &qf, k).map(|v| v.into_iter().map(|(i, s)| (i.as_u64(), s as f64)).collect()).map_err(|e| e.to_string()))).map_err(panic_text)
                         }
                         _ => {
                             o.probe("search_cypher");
                             let lit = format!("[{}]", q.iter().map(|x| format!("{x:?}")).collect::<Vec<_>>().join(", "));
-                            let qs = format!("CALL db.index.vector.queryNodes('{l}', 'emb', {lit}, {k}) YIELD node, score RETURN node, score");
+                            let qs = format!("CALL db.index.vector.queryNodes('{l}', '{prop}', {lit}, {k}) YIELD node, score RETURN node, score");
                             catch_unwind(AssertUnwindSafe(|| {
                                 engine.execute(&qs, &g).map_err(|e| e.to_string()).map(|b| {
                                     b.records
@@ -714,7 +784,7 @@ impl Scenario for C29 {
                         }
                     };
                     let how = ["manager", "store", "cypher"][via as usize % 3];
-                    resolved = format!("{l}:{how}:{k}");
+                    resolved = format!("{l}:{prop}:{how}:{k}");
                     o.steps += 1;
                     if asyn && pending > 0 {
                         o.probe("lagging_read");
@@ -738,8 +808,8 @@ impl Scenario for C29 {
                             Ok(Ok(rows)) => {
                                 // Is this index searched exactly?  Both the model's and the index's own
                                 // count must say so; otherwise only the clauses that hold for every index apply.
-                                let held = g.vector_index.get_index(l, "emb").map(|i| i.read().unwrap().len()).unwrap_or(0);
-                                let approx = eligible_count(&m, l) > EXACT_MAX || held > EXACT_MAX;
+                                let held = g.vector_index.get_index(l, prop).map(|i| i.read().unwrap().len()).unwrap_or(0);
+                                let approx = eligible_count(&m, l, pi) > EXACT_MAX || held > EXACT_MAX;
                                 if approx {
                                     // the HNSW graph draws its layer assignment from thread_rng: what it
                                     // finds is not a function of the case, only the verdict is
@@ -755,14 +825,20 @@ impl Scenario for C29 {
                                     if removals_while_big {
                                         o.probe("hnsw_search_after_removal");
                                     }
-                                    if rows.len() < k.min(eligible_count(&m, l)) {
+                                    if rows.len() < k.min(eligible_count(&m, l, pi)) {
                                         o.probe("hnsw_fewer_than_k");
                                     }
                                 } else {
                                     hash = hash_str(&format!("{hash}|{rows:?}"));
                                 }
                                 o.probe("search_asserted");
-                                let cand = m.nodes.values().filter(|n| n.labels.contains(l) && n.vec.is_some()).count();
+                                if m.idx.contains_key(&(l, 1 - pi)) {
+                                    o.probe(&format!("search_{prop}_of_two_indexes"));
+                                    if left_two_indexes.contains(l) {
+                                        o.probe(&format!("search_{prop}_after_node_left_two_indexes"));
+                                    }
+                                }
+                                let cand = eligible_count(&m, l, pi);
                                 if k > cand {
                                     o.probe("k_exceeds_candidates");
                                 }
@@ -771,13 +847,13 @@ impl Scenario for C29 {
                                 }
                                 // tie at the cut-off (informational)
                                 {
-                                    let mut all: Vec<f64> = m.nodes.values().filter(|n| n.labels.contains(l) && n.vec.is_some()).map(|n| dist(metric, &q, &n.vec.as_ref().unwrap().iter().map(|x| *x as f64).collect::<Vec<_>>())).collect();
+                                    let mut all: Vec<f64> = m.nodes.values().filter(|n| n.labels.contains(l) && n.vecs[pi].is_some()).map(|n| dist(metric, &q, &n.vecs[pi].as_ref().unwrap().iter().map(|x| *x as f64).collect::<Vec<_>>())).collect();
                                     all.sort_by(|a, b| a.partial_cmp(b).unwrap());
                                     if k < all.len() && (all[k] - all[k - 1]).abs() <= EPS {
                                         o.probe("tie_at_k");
                                     }
                                 }
-                                if let Some((class, detail)) = judge(&m, l, metric, &q, k, &rows, approx) {
+                                if let Some((class, detail)) = judge(&m, l, pi, metric, &q, k, &rows, approx) {
                                     let path = if approx { "hnsw_" } else { "" };
                                     o.violate(Violation::new(format!("C29/{class}/{path}{how}"), detail, step));
                                     break 'run;
